@@ -169,7 +169,7 @@ def _corpus_chunk(arg):
     import sqlglot
     from sqlglot.optimizer.annotate_types import annotate_types
     from sqlglot.optimizer.qualify import qualify
-    from lib.guard import limits, time_limit
+    from lib.guard import HardTimeout, limits, time_limit
     from lib.producers import SCHEMA
 
     limits()
@@ -191,14 +191,14 @@ def _corpus_chunk(arg):
                             nd.meta["n"] = k
                             if k % 2:
                                 nd.meta["k"] = "other"
-        except Exception:
+        except (Exception, HardTimeout):
             continue
         try:
             with time_limit(30):
                 for c in roundtrips(tree, w["dialects"]):
                     c["meta"] = {"sql": w["sql"], "dialect": w["dialect"], "state": w["state"], "variant": c.pop("variant"), "err": c.pop("err"), "unsafe": c.pop("unsafe", ""), "kind": "corpus"}
                     out.append(c)
-        except Exception as e:
+        except (Exception, HardTimeout) as e:
             out.append({"crash": f"{type(e).__name__}: {e}", "meta": w})
     return out
 
@@ -207,7 +207,7 @@ def _model_chunk(arg):
     import sys
 
     sys.path.insert(0, os.environ.get("VERIF_REPO", "/repo"))
-    from lib.guard import limits, time_limit
+    from lib.guard import HardTimeout, limits, time_limit
     from props.c08 import POPS, Replay, EMPTY_LIST_POPS
     from sqlglot import serde
 
@@ -222,7 +222,7 @@ def _model_chunk(arg):
             with time_limit(10):
                 for a in h:
                     r.apply(a)
-        except Exception:
+        except (Exception, HardTimeout):
             continue
         for ent in rec["d"]:
             root_s, rel = ent["r"], ent["rel"]
